@@ -524,6 +524,15 @@ impl Sys {
             "identity" => m_identity = self.names.get(other(&IDS, id)),   // signed for another identity
             "topic" => m_topic = topic_no(other(&TOPICS, t)),             // signed for another topic
             "nonce" => m_nonce = nonce + 1,                                // signed with a nonce that is not current
+            // two fields of the same type exchanged in the signed message
+            "swap_ii" => std::mem::swap(&mut m_issuer, &mut m_identity),
+            "swap_tn" => {
+                // (topic and nonce are both 4 bytes wide in the message only if they are equal types: exchange their values)
+                let (t0, n0) = (m_topic, m_nonce);
+                // (equal values: the exchange would change nothing - sign for a topic nobody uses instead)
+                m_topic = if t0 == n0 { t0 ^ 0x100 } else { n0 };
+                m_nonce = t0;
+            }
             _ => {}
         }
         let data_signed = mk_data(e, until, b"kyc-ok");
@@ -702,7 +711,8 @@ impl Sys {
 // ---------------------------------------------------------------------------------------------
 // exec / drive
 // ---------------------------------------------------------------------------------------------
-const STATIC_DEFECTS: [&str; 10] = ["data", "until", "topic", "identity", "issuer", "network", "nonce", "scheme", "sigbyte", "forged"];
+const STATIC_DEFECTS: [&str; 12] = ["data", "until", "topic", "identity", "issuer", "network", "nonce", "scheme", "sigbyte", "forged",
+    "swap_ii", "swap_tn"];
 
 fn mkop(kind: &str, t: &str, i: &str, id: &str, k: &str, reg: &str, ts: Vec<String>, def: &str, until: i64, dt: i64) -> Value {
     json!({"op": kind, "t": t, "i": i, "id": id, "k": k, "reg": reg, "ts": ts, "def": def, "until": until, "dt": dt})
